@@ -57,8 +57,11 @@ FAMILIES = {
     "linger": fam(EnvOn=["Tick", "ExtTaint", "ExtForce", "Linger", "NodeGone", "Restart"], FaultOps=["delete", "terminate"], MaxFaults=1,
                   TaintKinds=["zero"], cfg=dict(min=0, max=3), AsgMin0=0, AsgMax0=3, MaxPend=0, KC=1, KM=1, InitNodes=2),
     # the informer cache lags behind the API: the scan lists stale nodes, writes go to the live objects
-    "lag": fam(EnvOn=["Tick", "PodArrive", "PodFinish", "ExtTaint", "ExtForce", "ExtUntaint", "Lag", "NodeGone"], FaultOps=["update"], MaxFaults=1,
+    "lag": fam(EnvOn=["Tick", "PodArrive", "PodFinish", "ExtTaint", "ExtForce", "ExtUntaint", "Lag", "NodeGone"], FaultOps=["update", "conflict"], MaxFaults=1,
                TaintKinds=["now"], cfg=dict(min=0, max=3), AsgMin0=0, AsgMax0=3, MaxPend=1, KC=1, KM=1, InitNodes=2),
+    # taint / untaint writes that lose a race against another writer (409 Conflict; the other writer set the no-delete annotation)
+    "conflict": fam(EnvOn=["Tick", "PodArrive", "PodFinish", "ExtTaint", "ExtUntaint"], FaultOps=["conflict", "update"], MaxFaults=1,
+                    TaintKinds=["now"], cfg=dict(min=0, max=3), AsgMin0=0, AsgMax0=3, MaxPend=1, KC=1, KM=1, InitNodes=2),
     # an operator edits the ASG bounds of a group whose min / max are configured (not discovered)
     "asgedit": fam(EnvOn=["Tick", "PodArrive", "PodFinish", "AsgEdit", "CloudLaunch", "Register"],
                    cfg=dict(min=0, max=2), AsgMin0=0, AsgMax0=3, AsgBoundsSet=[[0, 1], [0, 2], [0, 3], [0, 4]], MaxPend=3, InitNodes=1),
